@@ -1,6 +1,7 @@
 package props
 
 import (
+	"golang.org/x/tools/go/packages"
 	"strings"
 
 	"fmt"
@@ -58,29 +59,35 @@ func C10bitvec(p *load.Program, run *report.Run) {
 			var count int64 = -1
 			ws := &wInterp{pkg: pkg}
 			ws.push()
+			bindScalars(pkg, ws, fs)
 			for k, name := range sp {
 				ws.set(name, atoms(fmt.Sprintf("v%d", k), n), true)
 			}
 			ws.set("l.D0", int64(0), true)
 			ws.set("l.D1", int64(0), true)
-			ws.hook = func(name string, c *ast.CallExpr) (wv, bool) {
-				switch name {
-				case "SendUint32":
-					v := ws.expr(c.Args[0])
-					if k, ok := v.(int64); ok {
-						count = k
+			var sendHook func(w *wInterp) func(name string, c *ast.CallExpr) (wv, bool)
+			sendHook = func(w *wInterp) func(name string, c *ast.CallExpr) (wv, bool) {
+				return func(name string, c *ast.CallExpr) (wv, bool) {
+					switch name {
+					case "SendUint32":
+						v := w.expr(c.Args[0])
+						if k, ok := v.(int64); ok {
+							count = k
+						}
+						return nil, true
+					case "SendLabel":
+						lv := strings.TrimPrefix(cx(c.Args[0]), "&")
+						d0, _ := w.lookup(lv + ".D0")
+						d1, _ := w.lookup(lv + ".D1")
+						labels = append(labels, msg{d0, d1})
+						return nil, true
+					case "Flush":
+						return nil, true
 					}
-					return nil, true
-				case "SendLabel":
-					d0, _ := ws.lookup("l.D0")
-					d1, _ := ws.lookup("l.D1")
-					labels = append(labels, msg{d0, d1})
-					return nil, true
-				case "Flush":
-					return nil, true
+					return peerHelper(pkg, w, c, sendHook)
 				}
-				return nil, false
 			}
+			ws.hook = sendHook(ws)
 			o := ws.stmts(fs.Body.List)
 			if ws.fail != "" {
 				bad = fmt.Sprintf("length %d, sender: %s", n, ws.fail)
@@ -93,6 +100,7 @@ func C10bitvec(p *load.Program, run *report.Run) {
 			// receiver
 			wr := &wInterp{pkg: pkg}
 			wr.push()
+			bindScalars(pkg, wr, fr)
 			outs := make([][]wv, len(rp))
 			for k, name := range rp {
 				outs[k] = make([]wv, n)
@@ -104,22 +112,27 @@ func C10bitvec(p *load.Program, run *report.Run) {
 			wr.set("l.D0", int64(0), true)
 			wr.set("l.D1", int64(0), true)
 			pos := 0
-			wr.hook = func(name string, c *ast.CallExpr) (wv, bool) {
-				switch name {
-				case "ReceiveUint32":
-					return wtuple{count, nil}, true
-				case "ReceiveLabel":
-					if pos >= len(labels) {
-						wr.bad("the receiver reads label %d, the sender sent %d", pos+1, len(labels))
+			var recvHook func(w *wInterp) func(name string, c *ast.CallExpr) (wv, bool)
+			recvHook = func(w *wInterp) func(name string, c *ast.CallExpr) (wv, bool) {
+				return func(name string, c *ast.CallExpr) (wv, bool) {
+					switch name {
+					case "ReceiveUint32":
+						return wtuple{count, nil}, true
+					case "ReceiveLabel":
+						if pos >= len(labels) {
+							w.bad("the receiver reads label %d, the sender sent %d", pos+1, len(labels))
+							return nil, true
+						}
+						lv := strings.TrimPrefix(cx(c.Args[0]), "&")
+						w.set(lv+".D0", labels[pos].d0, false)
+						w.set(lv+".D1", labels[pos].d1, false)
+						pos++
 						return nil, true
 					}
-					wr.set("l.D0", labels[pos].d0, false)
-					wr.set("l.D1", labels[pos].d1, false)
-					pos++
-					return nil, true
+					return peerHelper(pkg, w, c, recvHook)
 				}
-				return nil, false
 			}
+			wr.hook = recvHook(wr)
 			o = wr.stmts(fr.Body.List)
 			switch {
 			case wr.fail != "":
@@ -185,4 +198,92 @@ func rawBufferRole(p *load.Program, pkg, typ, name string) string {
 		return name + " "
 	}
 	return ""
+}
+
+// peerHelper interprets a call of a method of the package that has a body (a helper the role was split
+// into) on the caller's argument values; label variables of the helper start as the zero label.
+func peerHelper(pkg *packages.Package, w *wInterp, c *ast.CallExpr, mk func(*wInterp) func(string, *ast.CallExpr) (wv, bool)) (wv, bool) {
+	sel, ok := c.Fun.(*ast.SelectorExpr)
+	if !ok {
+		return nil, false
+	}
+	fn, ok := pkg.TypesInfo.Uses[sel.Sel].(*types.Func)
+	if !ok || fn.Pkg() != pkg.Types {
+		return nil, false
+	}
+	var fd *ast.FuncDecl
+	for _, f := range pkg.Syntax {
+		for _, d := range f.Decls {
+			if x, ok := d.(*ast.FuncDecl); ok && x.Body != nil && pkg.TypesInfo.Defs[x.Name] == types.Object(fn) {
+				fd = x
+			}
+		}
+	}
+	if fd == nil {
+		return nil, false
+	}
+	w.depth++
+	defer func() { w.depth-- }()
+	if w.depth > 4 {
+		return w.bad("helpers nested deeper than 4"), true
+	}
+	sub := &wInterp{pkg: pkg, depth: w.depth}
+	sub.hook = mk(sub)
+	sub.push()
+	if fd.Recv != nil {
+		for _, f := range fd.Recv.List {
+			for _, n := range f.Names {
+				sub.set(n.Name, "obj:"+n.Name, true)
+			}
+		}
+	}
+	i := 0
+	for _, fl := range fd.Type.Params.List {
+		for _, nm := range fl.Names {
+			if i < len(c.Args) {
+				sub.set(nm.Name, w.expr(c.Args[i]), true)
+			}
+			i++
+		}
+	}
+	// label variables: `var l ot.Label` is the zero label; a label kept in the receiver is shared state and
+	// is not modelled (its words would be whatever another goroutine left)
+	ast.Inspect(fd.Body, func(n ast.Node) bool {
+		if vs, ok := n.(*ast.ValueSpec); ok && vs.Type != nil && strings.HasSuffix(cx(vs.Type), "Label") {
+			for _, nm := range vs.Names {
+				sub.set(nm.Name+".D0", int64(0), true)
+				sub.set(nm.Name+".D1", int64(0), true)
+			}
+		}
+		return true
+	})
+	if w.fail != "" {
+		return nil, true
+	}
+	o := sub.stmts(fd.Body.List)
+	if sub.fail != "" {
+		return w.bad("%s: %s", fd.Name.Name, sub.fail), true
+	}
+	if o.kind == "return" && o.err {
+		return "error", true
+	}
+	return nil, true
+}
+
+// bindScalars binds the receiver and the parameters that are not vectors (the connection, the peer) to atoms.
+func bindScalars(pkg *packages.Package, w *wInterp, fd *ast.FuncDecl) {
+	if fd.Recv != nil {
+		for _, f := range fd.Recv.List {
+			for _, n := range f.Names {
+				w.set(n.Name, "obj:"+n.Name, true)
+			}
+		}
+	}
+	for _, f := range fd.Type.Params.List {
+		for _, n := range f.Names {
+			if _, ok := pkg.TypesInfo.Defs[n].Type().Underlying().(*types.Slice); !ok {
+				w.set(n.Name, "obj:"+n.Name, true)
+			}
+		}
+	}
 }
